@@ -53,8 +53,10 @@ def make_situation(rng, d, cls, sit):
             "log_len": len(log)}
 
 
-def make_neighbours(rng, d, cls):
-    for nm in NEIGH:
+def make_neighbours(rng, d, cls, skip=None):
+    for nm in NEIGH + ["foo"]:
+        if nm == skip or (skip is None and nm == "foo"):
+            continue
         r, _, _ = RE.build_record(rng, d, nm, cls, 2, ops_per=(1, 3))
         r.close()
 
@@ -205,17 +207,20 @@ def cell(rng, acc, d, clsname, mode, sit, neigh):
 
 def reopen_case(rng, acc, d, clsname):
     cls = RE.CLS[clsname]
-    ncont = rng.randint(1, 5)
-    rec, log, commits = RE.build_record(rng, d, "foo", cls, ncont, ops_per=(1, 6), exts_prob=0.3)
+    # records with 10+ containers (file names no longer sort like patch indices) and other legal record names
+    ncont = rng.choice([1, 2, 3, 4, 5, 5, 11, 12])
+    name = rng.choice(["foo", "foo", "foo-bar", "f", "A1-b", "foop1"])
+    rec, log, commits = RE.build_record(rng, d, name, cls, ncont, ops_per=(1, 6) if ncont < 10 else (1, 2), exts_prob=0.3)
     if rng.random() < 0.5:
-        make_neighbours(rng, d, cls)
+        make_neighbours(rng, d, cls, skip=name)
+    acc.count(f"reopen_containers.{ncont}")
     before = E.full_dump(rec)
     files = list(rec.ih5_files)
     rec.close()
     s0 = fsmon.dir_state(d)
     perms = list(itertools.permutations(files)) if len(files) <= 4 else \
         [tuple(rng.sample(files, len(files))) for _ in range(24)]
-    tries = [("name", d / "foo")] + [("list", list(p)) for p in perms]
+    tries = [("name", d / name)] + [("list", list(p)) for p in perms]
     for how, what in tries:
         r, err = RE.try_open(cls, what, "r")
         if r is None:
@@ -241,7 +246,7 @@ def reopen_case(rng, acc, d, clsname):
             return "reopen", f"view differs after reopen in {mode}"
         r["cont/x"] = 3
         r.close()
-        r = cls(d / "foo", "r")
+        r = cls(d / name, "r")
         dd = E.dump_walk(r)
         if dd.get("/cont/x") is None or {k: v for k, v in dd.items() if not k.startswith("/cont") and k != "/"} != \
                 {k: v for k, v in before[0].items() if k != "/"}:
